@@ -422,38 +422,42 @@ def loop_report(prog, fn):
     v = FnView.get(prog, fn)
     out = []
     loops = fn.loops()
+    retw = {b for (b, k, _) in ret_writes(fn)}
     for lp in loops:
-        inner = set(lp["body"])
+        inner_blocks = set()
         for other in loops:
             if other is not lp and other["body"] < lp["body"]:
-                inner -= (other["body"] - {other["header"]}) if False else set()
+                inner_blocks |= other["body"]
+        own = lp["body"] - inner_blocks
         info = {"header": lp["header"], "body": lp["body"], "line": fn.blocks[lp["header"]].term["span"]["line"]}
-        # exhaustion edge: `next()` is None
-        next_bbs = [b for b in lp["body"] if (callee_of(fn.blocks[b].term) or {}).get("name") == "next"]
+        # the `next()` call that drives this loop (not one of a nested loop)
+        next_bbs = [b for b in own if (callee_of(fn.blocks[b].term) or {}).get("name") == "next"
+                    and ((callee_of(fn.blocks[b].term) or {}).get("trait") or "").endswith("Iterator")]
         exhausted = set()
         some_targets = set()
         for (e, fact) in v.facts:
-            if e[0] in lp["body"] and fact[0] == "succ" and is_call(fact[1], name="next"):
+            if e[0] in own and fact[0] == "succ" and is_call(fact[1], name="next"):
                 site = fact[1][3]
-                if site[1] in next_bbs:
+                if site[-1] in next_bbs:
                     if not fact[2] and e[1] not in lp["body"]:
                         exhausted.add(e)
                     if fact[2]:
                         some_targets.add(e[1])
-        # while-style loops: exit edges from the header's own condition
         exits = loop_exits(fn, lp)
         cls = []
         after = set()
         for e in exhausted:
-            after |= fn.reach(e[1])
-        retw = {b for (b, k, _) in ret_writes(fn)}
+            after |= fn.reach(e[1], stop=frozenset({lp["header"]}))
+        after -= lp["body"]
         effectful = {b for b in after if fn.blocks[b].term["k"] == "call" or b in retw}
+        returns = {b for b in fn.normal_blocks() if fn.blocks[b].term["k"] == "return"}
         for e in exits:
             if e in exhausted:
                 cls.append((e, "exhausted"))
-            elif not fn.reach(e[1]) & {b for b in fn.normal_blocks() if fn.blocks[b].term["k"] == "return"}:
+            elif not fn.reach(e[1]) & returns:
                 cls.append((e, "diverge"))
-            elif err_only_region(fn, e[1]) and not (fn.reach(e[1]) & effectful):
+            elif err_only_region(fn, e[1], stop=frozenset({lp["header"]})) and \
+                    not ((fn.reach(e[1], stop=frozenset({lp["header"]})) - lp["body"]) & effectful):
                 # returns an error without running any of the code that follows the loop
                 cls.append((e, "error"))
             else:
@@ -463,12 +467,15 @@ def loop_report(prog, fn):
         info["iter_term"] = None
         for b in next_bbs:
             info["iter_term"] = v.cx.operand(fn.blocks[b].term["args"][0])
-        # skippable accumulations
-        acc = accumulation_sites(fn, lp)
+        # skippable accumulations (writes that sit in a nested loop belong to that loop)
+        acc = {}
+        for l, bs in accumulation_sites(fn, lp).items():
+            mine = {b for b in bs if b in own}
+            if mine:
+                acc[l] = bs
         entry = list(some_targets) or [lp["header"]]
         skips = {}
         for l, bs in acc.items():
-            # can control go from the body entry back to the header without passing a write of l?
             seen = set()
             todo = [x for x in entry if x not in bs]
             hit = False
@@ -483,11 +490,6 @@ def loop_report(prog, fn):
                         break
                     if t in lp["body"] and t not in bs and t not in seen:
                         todo.append(t)
-                if n == lp["header"] and n in entry:
-                    pass
-            if entry == [lp["header"]]:
-                # header is the entry: a path header -> ... -> header
-                pass
             skips[l] = hit
         info["acc"] = acc
         info["skippable"] = skips
